@@ -31,7 +31,7 @@ func main() {
 	pkg := flag.String("pkg", "", "harness package import path")
 	run := flag.String("run", "", "comma separated harness function names (default: all H_*)")
 	workers := flag.Int("workers", 16, "parallel workers")
-	solver := flag.String("solver", "z3", "solver binary")
+	solver := flag.String("solver", "", "solver binary (default: $ZSYM_SOLVER, z3-new, z3)")
 	timeout := flag.Int("timeout", 10000, "per-query timeout ms")
 	maxPaths := flag.Int("maxpaths", 0, "stop after this many paths")
 	maxSteps := flag.Int64("maxsteps", 2000000, "per-path SSA step budget")
